@@ -4,7 +4,7 @@
 //! 120 s of a boundary. Thorough tier adds a virtual-clock leg (LD_PRELOAD shim).
 
 use crate::api::{self, Outcome, Resolver};
-use crate::evidence::{run_cases, Ctx, Local, Report, Tier, Violation};
+use crate::evidence::{run_cases, Ctx, Local, Report, Violation};
 use crate::keys::{Alg, ALL_ALGS};
 use crate::model::{Fmt, Parts, FMTS};
 use crate::pipeline::{self, Config};
@@ -37,7 +37,9 @@ pub fn run(ctx: &Ctx) -> Report {
     rep.floor("kb.on", 200);
     rep.floor("format.Compact", 50);
     rep.floor("format.JSON", 50);
-    if ctx.tier == Tier::Thorough && ctx.only_case.is_none() {
+    // the virtual-clock leg is cheap (< 2 s): both tiers run it; without a C compiler / shim it
+    // is skipped and recorded as such (it then decides nothing)
+    if ctx.only_case.is_none() && ctx.shard.is_none() && std::env::var("VERIF_LEG").is_err() {
         vclock_leg(ctx, &mut rep);
     }
     rep
@@ -120,6 +122,7 @@ fn one_case(ctx: &Ctx, case: u64, l: &mut Local) {
         // no longer exists is (legitimately) an error of the holder
         o.remove("exp");
         o.remove("nbf");
+        o.remove("iat");
     }
     let resolver = Resolver::Fixed(cfg.alg, 0);
     l.sample(case, || json!({"config": cfg.describe(), "payload_members": base.keys().collect::<Vec<_>>(), "t": t0}));
@@ -127,6 +130,26 @@ fn one_case(ctx: &Ctx, case: u64, l: &mut Local) {
         let mut p = base.clone();
         p.remove("exp");
         p.remove("nbf");
+        // iat is not part of the validity window: whatever it says (absent, past, in the future,
+        // non-numeric) must not move the two bounds
+        match vi % 6 {
+            0 => {}
+            1 => {
+                p.remove("iat");
+            }
+            2 => {
+                p.insert("iat".into(), json!(t0 + 90 + r.below(600)));
+            }
+            3 => {
+                p.insert("iat".into(), json!(t0 + 3600 + r.below(10 * YEAR)));
+            }
+            4 => {
+                p.insert("iat".into(), json!(t0 - r.below(10 * YEAR)));
+            }
+            _ => {
+                p.insert("iat".into(), json!(((t0 + 1800) as f64) + 0.5));
+            }
+        }
         if let Some(e) = &exp {
             p.insert("exp".into(), e.clone());
         }
@@ -206,6 +229,43 @@ fn one_case(ctx: &Ctx, case: u64, l: &mut Local) {
 
 /// Child mode: `sdjwt-mon C09-vclock <base>` — build a fixed token set with exp/nbf relative to
 /// the REAL instant <base>, verify each under the (shifted) process clock, print one JSON line.
+/// Child mode with a moving clock: `sdjwt-mon C09-vclock-history <base> <offset-file>`.
+/// The same token strings are verified at virtual instant A (base), then the process moves its
+/// own clock (the shim re-reads the offset file) to base+2d, base+400d and back to base, and
+/// verifies the SAME strings again: an acceptance remembered from an earlier instant must not
+/// survive the credential's expiry, nor a rejection its becoming valid.
+pub fn vclock_history_child(base: u64, offset_file: &str) {
+    let mut tokens: Vec<(String, crate::model::Fmt, Alg, u64, Option<u64>)> = vec![];
+    for (ai, alg) in ALL_ALGS.iter().enumerate() {
+        for fmt in FMTS {
+            for (eo, no) in [(86_400i64, None), (86_400, Some(-3600i64)), (300 * 86_400, None), (300 * 86_400, Some(3 * 86_400)), (-86_400, None), (10 * YEAR as i64, Some(86_400))] {
+                let exp = (base as i64 + eo) as u64;
+                let nbf = no.map(|n: i64| (base as i64 + n) as u64);
+                let mut pl = json!({"iss": "https://issuer.example/A", "exp": exp, "v": ai, "a": [1, 2]});
+                if let Some(n) = nbf {
+                    pl["nbf"] = json!(n);
+                }
+                let parts = Parts { jwt: api::sign_payload(*alg, 0, &pl, None), disclosures: vec![], kb: None };
+                tokens.push((parts.encode(fmt, 0).unwrap_or_default(), fmt, *alg, exp, nbf));
+            }
+        }
+    }
+    let mut phases = vec![];
+    for off in [0i64, 2 * 86_400, 400 * 86_400, 0, 5 * 86_400] {
+        if std::fs::write(offset_file, off.to_string()).is_err() {
+            return;
+        }
+        let vnow = api::now();
+        let mut rows = vec![];
+        for (text, fmt, alg, exp, nbf) in &tokens {
+            let out = api::verify(text, &Resolver::Fixed(*alg, 0), None, *fmt).out;
+            rows.push(json!({"alg": alg.name(), "fmt": fmt.name(), "exp": exp, "nbf": nbf, "result": out.class()}));
+        }
+        phases.push(json!({"offset": off, "vnow": vnow, "rows": rows}));
+    }
+    println!("{}", json!({"phases": phases}));
+}
+
 pub fn vclock_child(base: u64) {
     let now = api::now();
     let mut rows = vec![];
@@ -313,6 +373,60 @@ fn vclock_leg(ctx: &Ctx, rep: &mut Report) {
             }
         }
         instants.push(json!({"offset": off, "virtual_now": vnow, "tokens_asserted_ok": n_ok, "tokens_asserted_err": n_err}));
+    }
+    // ---- history with a moving clock inside ONE process
+    {
+        let off_file = format!("{}/.partials/vclock-offset-{}", ctx.out_dir, std::process::id());
+        let _ = std::fs::create_dir_all(format!("{}/.partials", ctx.out_dir));
+        let _ = std::fs::write(&off_file, "0");
+        let real_now = api::now();
+        let out = std::process::Command::new(&exe)
+            .args(["C09-vclock-history", &real_now.to_string(), &off_file])
+            .env("LD_PRELOAD", &shim)
+            .env("VCLOCK_OFFSET_FILE", &off_file)
+            .output();
+        let _ = std::fs::remove_file(&off_file);
+        let v: Option<Value> = out.ok().filter(|o| o.status.success()).and_then(|o| String::from_utf8_lossy(&o.stdout).lines().last().and_then(|l| serde_json::from_str(l).ok()));
+        match v {
+            None => {
+                leg.insert("moving_clock_history".into(), json!("child failed; decides nothing"));
+            }
+            Some(v) => {
+                let mut summary = vec![];
+                for ph in v["phases"].as_array().cloned().unwrap_or_default() {
+                    let off = ph["offset"].as_i64().unwrap_or(0);
+                    let vnow = ph["vnow"].as_u64().unwrap_or(0);
+                    if vnow.abs_diff((real_now as i64 + off) as u64) > 300 {
+                        summary.push(json!({"offset": off, "status": "shim self-test failed (clock did not move)", "vnow": vnow}));
+                        continue;
+                    }
+                    let (mut ok, mut err) = (0u64, 0u64);
+                    for row in ph["rows"].as_array().cloned().unwrap_or_default() {
+                        let exp = row["exp"].as_u64().unwrap_or(0);
+                        let nbf = row["nbf"].as_u64();
+                        let res = row["result"].as_str().unwrap_or("");
+                        if exp.abs_diff(vnow) < 240 || nbf.map(|n| n.abs_diff(vnow) < 240).unwrap_or(false) {
+                            continue;
+                        }
+                        let expect_ok = exp > vnow && nbf.map(|n| n < vnow).unwrap_or(true);
+                        checked += 1;
+                        rep.local.evals += 1;
+                        if res == "ok" { ok += 1 } else { err += 1 }
+                        if (res == "ok") != expect_ok || res == "panic" {
+                            rep.local.violate(Violation {
+                                subcheck: if res == "panic" { "panic".into() } else if expect_ok { "rejected-inside-window".into() } else { format!("accepted-outside-window-{}", if exp <= vnow { "exp" } else { "nbf" }) },
+                                class: format!("moving clock, same process, same token string, now at offset {off}"),
+                                observed: res.to_string(),
+                                case: 0,
+                                detail: json!({"virtual_now": vnow, "row": row, "note": "the same token string was verified earlier in this process at another virtual instant"}),
+                            });
+                        }
+                    }
+                    summary.push(json!({"offset": off, "virtual_now": vnow, "asserted_ok": ok, "asserted_err": err}));
+                }
+                leg.insert("moving_clock_history".into(), json!(summary));
+            }
+        }
     }
     leg.insert("status".into(), json!("run"));
     leg.insert("instants".into(), json!(instants));
